@@ -368,6 +368,40 @@ def text_tie(ctx, case, toks, m, tag, agree):
     parse_tie(ctx, case, tag, 'nested', real['nested'], shape, pvals, values, [], nested_text_to_flat_json)
 
 
+HOSTILE = [b" b'x", b'it\'s "q"', b"  lead", b"a = b", b"# x", b"-> A1", b"<<<<<<", b"######", b"3xx y", b"\\", b" b\"",
+           b"' b'", b"x b' y'", b"\xff\x85 z", b". dots", b"tab\there", b"nl\nx", b"q'", b'q"', b"....", b" = "]
+
+
+def hostile_message(k):
+    """strings that look like what the parsers search for: quotes, ' b' + quote, ' = ', '#', '->', '<<<<<<', dots;
+    under an associated field, in a delayed replication, and as the last value"""
+    a, b2, c = HOSTILE[k % len(HOSTILE)], HOSTILE[(k * 7 + 3) % len(HOSTILE)], HOSTILE[(k * 5 + 1) % len(HOSTILE)]
+    shape = k % 3
+    if shape == 0:
+        ids, vals = [1015, 12001, 1019], [[a, 280.5, b2], [c, None, a]]
+    elif shape == 1:
+        ids, vals = [204004, 31021, 1015, 204000, 101000, 31001, 1019, 1015], [[1, 5, a, 2, b2, c, a]]
+    else:
+        ids, vals = [1015, 222000, 236000, 101001, 31031, 33007, 1019], [[a, 0, 0, 0, 70, b2]]
+    return ids, vals
+
+
+def text_hostile_strings(ctx):
+    from pybufrkit.decoder import Decoder
+    for k in range(ctx.n(21, 63)):
+        ids, vals = hostile_message(k)
+        try:
+            b = B.encode_message(ids, vals, False, 4, 33).serialized_bytes
+            m = Decoder().process(b, wire_template_data=False)
+            toks = B.template_tokens(m.template_data.value.template)
+        except Exception as e:
+            ctx.dist['hostile-strings-not-built-%d' % lib.err_code(e)] += 1
+            continue
+        ctx.count(('hostile', k), True)
+        ctx.dist['hostile-strings'] += 1
+        check_message(ctx, {'hostile': k, 'ids': ids}, toks, b, 'hostile-%d' % k)
+
+
 def zero_subsets_probe(ctx):
     """a message with no subset: both text renderers emit one empty line for the template data and the converters
     raise ValueError (the model: flat_td_ok / nested_td_ok require a subset).  Recorded, not counted as a violation
@@ -587,17 +621,28 @@ def run(ctx):
                 ctx.dist['corpus-wire-error-%d' % lib.err_code(e)] += 1
             continue
         check_message(ctx, {'file': os.path.basename(f)}, toks, b, os.path.basename(f))
+    text_hostile_strings(ctx)
     zero_subsets_probe(ctx)
     cli_four_formats(ctx)
-    ctx.partial = ["flat text / nested text converters: line formats are exercised on the implementation, not modelled in Coq",
+    ctx.partial = ["C09_nested_text_221_refuted (D21): NestedTextRenderer prints elements skipped by 221YYY without a value",
+                   "C09_text_zero_subsets_refuted: a message without any subset does not convert back from either text format",
+                   "repr / ast.literal_eval are external to the text theorems: their side conditions (TextFmtSpec.v) are evaluated per "
+                   "message by the extracted code and by the harness (literal_eval(repr(v)) == v)",
                    'labels_agree (an attribute is non-virtual exactly when its descriptor is an associated field) is a checked hypothesis of nested_to_flat_render']
-    ctx.assumptions = ['repr / ast.literal_eval / str.format are exercised, not modelled']
+    ctx.assumptions = ['repr / ast.literal_eval are parameters of the text theorems (side conditions checked per message); str.format widths, strip, splitlines, split, rfind, rsplit are modelled']
 
 
 def replay(ctx, rec):
     c = rec['case']
     if 'file' in c:
         return {'file': c['file']}
+    if 'hostile' in c:
+        from pybufrkit.decoder import Decoder
+        ids, vals = hostile_message(c['hostile'])
+        b = B.encode_message(ids, vals, False, 4, 33).serialized_bytes
+        m = Decoder().process(b, wire_template_data=False)
+        check_message(ctx, c, B.template_tokens(m.template_data.value.template), b, 'replay')
+        return {'violations': len(ctx.violations)}
     cases = [{'ids': c['ids'], 'version': c.get('version', 33), 'edition': c.get('edition', 4), 'nsub': c['nsub'],
               'compressed': False, 'forced': c['forced'], 'seed': c['seed'], 'maxrep': 3, 'features': {}, 'shared': False}]
     P.attach_templates(cases); P.run_gen(cases); P.run_encode(cases)
